@@ -115,6 +115,24 @@ class GridEval:
                 raise Undecided("contains on %r" % (r,))
             if "RangeInclusive" in name and name.endswith("::new") and len(args) == 2:
                 return ("range", self.ev(args[0]), self.ev(args[1]), True)
+            generic = t[4] if len(t) > 4 and t[4] else name
+            if generic.startswith("std::ops::") and generic.split("::")[-1] in ("add", "sub", "mul", "div", "neg"):
+                # operator impls of the crate's fixed-point newtypes (and of the primitive types): exact arithmetic on the values
+                opn = generic.split("::")[-1]
+                vals = [self.ev(x) for x in args]
+                if opn == "neg" and len(vals) == 1:
+                    return -vals[0]
+                if len(vals) == 2:
+                    a, b = vals
+                    if opn == "add":
+                        return a + b
+                    if opn == "sub":
+                        return a - b
+                    if opn == "mul":
+                        return a * b
+                    if b == 0:
+                        raise DivZero()
+                    return a / b
             for suf, f in _CMP.items():
                 if name.endswith(suf) and len(args) == 2:
                     return f(self.ev(args[0]), self.ev(args[1]))
@@ -194,11 +212,13 @@ def value_at(paths, assign, types=None):
         return "div0"
 
 
-def compare(body, params, grid, spec, valid=None, limit=3):
-    """-> (number of assignments compared, [(assignment, got, want)])"""
+def compare(body, params, grid, spec, valid=None, limit=3, places=None):
+    """-> (number of assignments compared, [(assignment, got, want)]). `places` maps a parameter name of the specification to the
+    place string the body reads it from (default: a local of that name)"""
     import itertools
     paths = read_paths(body)
     types = {body.local_name(i): body.local_ty(i) for i in range(1, body.arg_count + 1)}
+    places = places or {}
     n = 0
     bad = []
     for vals in itertools.product(grid, repeat=len(params)):
@@ -206,7 +226,7 @@ def compare(body, params, grid, spec, valid=None, limit=3):
         if valid is not None and not valid(**a):
             continue
         n += 1
-        got = value_at(paths, a, types)
+        got = value_at(paths, {places.get(k, k): v for k, v in a.items()}, types)
         want = spec(**a)
         if got != want:
             if len(bad) < limit:
